@@ -46,7 +46,7 @@ PROPS = {
             "DhtCoreEngine::handle_request is verified in its await-erased form (both awaits are tokio RwLock acquisitions); DataStore access counters are assumed below u64::MAX (2^64 reads of one key would overflow `access_count += 1`: a debug-build panic, wrap-around in release)",
             "TransportHandle::parse_request_envelope (decode-only wrapper; nothing to decide beyond the decoder's totality)",
         ],
-        "explanation": "Verus proves on the mechanically extracted text of network::parse_protocol_message, DhtRecord::{deserialize, serialize} and DhtNetworkManager::validate_put_value_size: a framed message is surfaced iff it decodes and its timestamp is within [now-300, now+30]; the surfaced source is the identity passed in by the transport (never the payload's `from`), topic and data come from the frame; records over 512 bytes are refused and the decoder is never entered with more (precondition of the decoder shim); serialised records are at most 512 bytes; stored values are at most 512 bytes. In the shared unit `bucket` (only the functions C05 depends on are extracted for this check): DhtCoreEngine::handle_request, await-erased, refuses a Store whose value is over 512 bytes and leaves the store unchanged, changes the store on no other request, answers Retrieve with exactly the stored bytes, and caps a FindNode reply at 20 names whatever count is asked; DataStore::{put, get} store and return exactly the given bytes.",
+        "explanation": "Verus proves on the mechanically extracted text of network::parse_protocol_message, DhtRecord::{deserialize, serialize} and DhtNetworkManager::validate_put_value_size: a framed message is surfaced iff it decodes and its timestamp is within [now-300, now+30]; the surfaced source is the identity passed in by the transport (never the payload's `from`), topic and data come from the frame; records over 512 bytes are refused and the decoder is never entered with more (precondition of the decoder shim); serialised records are at most 512 bytes; stored values are at most 512 bytes. In the shared unit `bucket` (only the functions C05 depends on are extracted for this check): DhtCoreEngine::handle_request, await-erased, refuses a Store whose value is over 512 bytes and leaves the store unchanged, changes the store on no other request, answers Retrieve with exactly the stored bytes, and caps a FindNode reply at 20 names whatever count is asked; DataStore::{put, get} store and return exactly the given bytes; DhtCoreEngine::store (await-erased) refuses a value over 512 bytes, writes at most the given key with exactly the given bytes, and a receipt that lists this node means the value is in its store.",
         "jobs": {"quick": 4, "thorough": 4},
     },
     "C09": {
